@@ -48,6 +48,26 @@ class GrammarModel:
         self._g = g
         self._regex: dict[str, str] | None = None
 
+    def block_rule_name(self) -> str:
+        """the rule of the expression blocks, found by what it matches (the `expressions` keyword), not by its name"""
+        names = [n for n, r in self.rules.items() if '"expressions"' in r["shape"]]
+        if "expressions" in names:
+            return "expressions"
+        if not names:
+            raise AnalysisError(f"{GRAMMAR_REL}: no rule that matches the `expressions` keyword (anchor vanished)")
+        return names[0]
+
+    def handlers(self, rule: str) -> list[str]:
+        """names of the transformer callbacks lark calls for a rule: the rule name, or the alias of an alternative"""
+        out = []
+        plain = False
+        for a in self.rules[rule]["tree"].children:
+            if getattr(a, "data", None) == "alias" and len(a.children) > 1 and a.children[1] is not None:
+                out.append(str(a.children[1].name if hasattr(a.children[1], "name") else a.children[1]))
+            else:
+                plain = True
+        return ([rule] if plain else []) + out
+
     def expand_inlined(self, text: str, depth: int = 4) -> str:
         """canonical EBNF text with the references to inlined helper rules (`_name`) replaced by their definition"""
         import re
